@@ -8,7 +8,7 @@
 From stdpp Require Import gmap list.
 From Coq Require Import ZArith.
 From KT Require Import Space Discover Cover.
-From KT Require G3 GR GQ GT2 GValid Lifecycle Rand EnsureIdem BayesVec.
+From KT Require G3 GR GQ GT2 GValid Lifecycle Rand EnsureIdem BayesVec HB HBValues.
 
 Theorem C05_exactly_active : ∀ (draw : nat → hp → value) sp v k, wo [] sp →
   let v' := (ensure_go draw sp sp v k).1 in
@@ -59,6 +59,39 @@ Example C05_grid_example :
   G3.wo [] sp ∧ length (G3.combos sp ∅) = 4.
 Proof. cbn. split; [|reflexivity]. repeat split; try set_solver; repeat constructor; set_solver. Qed.
 
+(* ---- Hyperband's copy step (HBValues.v): a promoted trial gets its parent's values plus the five tuner/* entries. For a space
+   whose names are not tuner/* names every entry has the parent's value and the parent's activity, so a parent valued on exactly
+   the active entries (a sampled one is: C05_random_values_exactly_active) hands that on, at any promotion depth; the tuner/*
+   entries read back are the ones of the schedule model HB.v (C10). *)
+Theorem C05_hyperband_promotion_exactly_active : ∀ (t : HBValues.tnames) sp parent pid (i : HB.hinfo),
+  wo [] sp → (∀ n, n ∈ hnames sp → n ∉ HBValues.tuner_names t) →
+  (∀ h, h ∈ sp → (is_Some (parent !! h_name h) ↔ conds_active parent (h_conds h) = true)) →
+  let v := HBValues.promote_values t parent pid i in
+  ∀ h, h ∈ sp → (is_Some (v !! h_name h) ↔ conds_active v (h_conds h) = true) ∧ v !! h_name h = parent !! h_name h.
+Proof. exact HBValues.promote_exactly_active. Qed.
+Theorem C05_hyperband_promotion_other_entries : ∀ (t : HBValues.tnames) parent pid (i : HB.hinfo) n,
+  n ∉ HBValues.tuner_names t → HBValues.promote_values t parent pid i !! n = parent !! n.
+Proof. exact HBValues.promote_other. Qed.
+Theorem C05_hyperband_tuner_entries : ∀ (t : HBValues.tnames) parent pid (i : HB.hinfo), NoDup (HBValues.tuner_names t) →
+  let v := HBValues.promote_values t parent pid i in
+  v !! HBValues.n_trial_id t = Some pid ∧ v !! HBValues.n_epochs t = Some (VInt (HB.i_epochs i)) ∧
+  v !! HBValues.n_initial t = Some (VInt (HB.i_initial i)) ∧
+  v !! HBValues.n_bracket t = Some (VInt (Z.of_nat (HB.i_label i))) ∧ v !! HBValues.n_round t = Some (VInt (Z.of_nat (HB.i_round i))).
+Proof. exact HBValues.promote_entries. Qed.
+(* _compute_values_hash drops the four schedule entries: a promoted trial is hashed as its parent plus tuner/trial_id *)
+Theorem C05_hyperband_hash_view : ∀ (t : HBValues.tnames) parent pid (i : HB.hinfo), NoDup (HBValues.tuner_names t) →
+  HBValues.hash_view t (HBValues.promote_values t parent pid i) = <[HBValues.n_trial_id t := pid]> (HBValues.hash_view t parent).
+Proof. exact HBValues.hash_view_promote. Qed.
+(* non-vacuity: five distinct names outside a one-entry space, parent {x: 3} *)
+Example C05_hyperband_example :
+  let t := {| HBValues.n_trial_id := [11%positive]; HBValues.n_epochs := [12%positive]; HBValues.n_initial := [13%positive];
+              HBValues.n_bracket := [14%positive]; HBValues.n_round := [15%positive] |} in
+  let i := {| HB.i_label := 2; HB.i_bracket := 2; HB.i_round := 1; HB.i_epochs := 4; HB.i_initial := 2; HB.i_parent := Some 0 |} in
+  let v := HBValues.promote_values t {[ [1%positive] := VInt 3 ]} (VStr 7) i in
+  NoDup (HBValues.tuner_names t) ∧ v !! [1%positive] = Some (VInt 3) ∧ v !! [12%positive] = Some (VInt 4) ∧ v !! [11%positive] = Some (VStr 7).
+Proof. cbn. split; [|by vm_compute]. unfold HBValues.tuner_names; cbn. repeat (apply NoDup_cons; split; [set_solver|]). apply NoDup_nil_2. Qed.
+
+
 Print Assumptions C05_exactly_active.
 Print Assumptions C05_random_values_exactly_active.
 Print Assumptions C05_bayes_vector_provenance.
@@ -66,3 +99,6 @@ Print Assumptions C05_bayes_inactive_entry_skips.
 Print Assumptions C05_grid_combination_valid.
 Print Assumptions C05_grid_trials_valid.
 Print Assumptions C05_other_names_untouched.
+Print Assumptions C05_hyperband_promotion_exactly_active.
+Print Assumptions C05_hyperband_tuner_entries.
+Print Assumptions C05_hyperband_hash_view.
